@@ -73,10 +73,10 @@ func ToByteReadSeeker(r io.Reader) ByteReadSeeker {
 	return &discardingReadSeekerPlusByte{Reader: r}
 }
 
+// ToReadSeeker reads ra from its start through ReadAt only. When ra is also an
+// io.ReadSeeker its own position is the caller's: it may be anywhere and is not
+// ours to move.
 func ToReadSeeker(ra io.ReaderAt) io.ReadSeeker {
-	if rs, ok := ra.(io.ReadSeeker); ok {
-		return rs
-	}
 	return &readerAtSeeker{ra: ra}
 }
 
